@@ -28,7 +28,14 @@ SCENARIOS = [('create_enddef', 1), ('create_enddef', 2), ('create_close', 1), ('
              ('sync_close_indep', 1), ('sync_close_indep', 2), ('redef_indep', 1), ('redef_indep', 2),
              ('redef_move', 1), ('redef_move', 2), ('wait_mixed', 1), ('wait_mixed', 2), ('wait_puts', 2), ('wait_gets', 2),
              ('wait_indep', 1), ('wait_indep', 2), ('wait_mixed_ina', 2), ('data_mode_meta', 1), ('data_mode_meta', 2),
-             ('open_read', 1), ('open_read', 2), ('open_bighdr', 1), ('zero_req', 2), ('hcoll_header', 2)]
+             ('open_read', 1), ('open_read', 2), ('open_bighdr', 1), ('zero_req', 2), ('hcoll_header', 2),
+             # every way into ncmpio_read_write: packed / unpacked memory buffer, read / write, _at / _at_all
+             ('flex_indep', 1), ('flex_indep', 2), ('flex_coll', 1), ('flex_coll', 2), ('flex_coll_ina', 2),
+             ('multi_indep', 1), ('multi_indep', 2), ('multi_coll', 1), ('multi_coll', 2), ('multi_coll_ina', 2),
+             # the remaining driver entry points: vard, varn, interleaved requests, ncmpi__enddef, copy_att, abort
+             ('x_enddef2', 1), ('x_enddef2', 2), ('x_copy_att', 1), ('x_copy_att', 2), ('x_vard', 1), ('x_vard', 2),
+             ('x_vard_indep', 1), ('x_vard_indep', 2), ('x_varn', 1), ('x_varn', 2), ('x_varn_indep', 2), ('x_varn_ina', 2),
+             ('x_interleaved', 1), ('x_interleaved', 2), ('x_interleaved_indep', 1), ('x_abort', 1), ('x_abort', 2)]
 # One defect, two table rows: req_commit's write phase is `err = wait_getput(WR)` or, under intra-node aggregation,
 # `err = ncmpio_intra_node_aggregation_nreqs(...)` -- the same `err`, overwritten by the same read phase, repaired by
 # the same patch.  Both rows report under the signature of the finding (F3).
@@ -156,10 +163,11 @@ def run_case(exe, wd, tag, scen, n, rank, k, cls, watchdog):
             os.unlink('%s.%d' % (pre, r))
         except OSError:
             pass
-    try:
-        os.unlink(nc)
-    except OSError:
-        pass
+    for f in (nc, nc + '.b'):
+        try:
+            os.unlink(f)
+        except OSError:
+            pass
     return rc, logs, err[-300:]
 
 
@@ -312,7 +320,7 @@ def run_check(tier, seed):
                 api = lab.get(call['seq'])
                 meta.update(site=site, chain=chain, prob=prob, api=api, label=api['label'] if api else None)
                 if site is not None and prob is None:
-                    later = 1 if (api and api['label'] in LATER_LABELS) else 0
+                    later = 1 if (api and any(api['label'].startswith(x) for x in LATER_LABELS)) else 0
                     req_lines.append('P %s %s %d %d' % (site['id'], ','.join(c['id'] for c in chain) or '-', clsval[cn], later))
                     meta['line'] = len(req_lines) - 1
             metas.append(meta)
@@ -412,15 +420,22 @@ def run_check(tier, seed):
                 tie_diffs.append((who, 'run-time call path is not in the generated path table: %s' % replay['chain']))
             # property oracle on the real library
             if observed == 0:
+                amb = next((r for r in [site] + m['chain'] if not keeps(r)), None) if pick == 'ambiguous' else None
                 if pick == '0' and droprow != '-':
                     sig = 'drop@' + row_sig(droprow)
                     sig = SIG_ALIAS.get(sig, sig)
+                elif amb is not None:
+                    # a row whose outcome the tables cannot decide (two possible values) and that did drop here
+                    sig = 'drop@' + row_sig(amb['id'])
+                    replay['model_drop_row'] = amb['id']
                 else:
                     sig = 'unpredicted-drop@%s:%s' % (sid, label)
                 report(sig, '%s: the %s of %s fails with %s and %s returns NC_NOERR on the failing rank' % (who, site['call'], sid, m['cls'], label), replay)
             # correspondence
             if pick == '0' and droprow in PARSER_DESYNC_ROWS and observed not in (0, None):
                 dist['parser-desync-reports-format-error'] += 1
+            elif pick == 'ambiguous' and observed is not None and str(observed) in allv.split():
+                dist['consistent-with-undecided-row'] += 1      # one of the values the table allows; not an exact validation
             elif pick == 'ambiguous' or observed is None or str(observed) != pick:
                 tie_diffs.append((who, 'site %s chain %s API %s: library returns %s, model predicts %s (outcomes %s)' % (sid, replay['chain'], label, observed, pick, allv)))
             else:
@@ -440,6 +455,12 @@ def run_check(tier, seed):
         V.cov['sites_reached'] = sorted(set(k[0] for k in seen_keys))
         V.cov['sites_not_reached'] = sorted(set(s['id'] for s in table['sites']) - set(k[0] for k in seen_keys))
         V.cov['paths_reached'] = len(set((k[0], k[1]) for k in seen_keys))
+        reached_fp = set((k[0].split('.')[0], k[1]) for k in seen_keys)
+        V.cov['paths_not_reached'] = sorted(set(
+            '%s <- %s' % (fn, ' <- '.join(pp['chain'])) for fn, ps in table['paths'].items() for pp in ps
+            if (fn, tuple(pp['chain'])) not in reached_fp and fn != 'hdr_fetch'))
+        V.cov['header_parser_paths_not_reached'] = len([1 for pp in table['paths'].get('hdr_fetch', [])
+                                                        if ('hdr_fetch', tuple(pp['chain'])) not in reached_fp])
         V.cov['exhaustive'] = False
         V.cov['samples'] = samples + ['theorem no_silent_drop_partial : ∀ s ∈ sites, ∀ p ∈ pathsOf s, ∀ c ∈ mpiClasses, excepted s p (ncOf c.2) = false → ∀ r ∈ apiStatus s p c.2, r ≠ 0',
                                       'theorem no_silent_drop_counterexample : ¬ NoSilentDrop_Statement']
